@@ -872,6 +872,9 @@ func MustReportWith(s *Scenario, ignoreNotSupported bool) []string {
 		switch t.Range {
 		case "10..1":
 			out = append(out, "range boundaries out of order")
+		case "1000..max", "min..1000":
+			// (written only on types that have no range for min / max to denote)
+			out = append(out, "range "+t.Range+" on a type without a range")
 		case "300", "-200..5", "1..5|20..30|400", "1..5|20..30":
 			// (the generator writes these only where the base does not allow them)
 			out = append(out, "range "+t.Range+" not within the base type's range")
